@@ -87,7 +87,21 @@ Inductive query :=
 | QGItemsTag (t : str)        (* group store: anyOf(items.tags) = "t" *)
 | QGWatchTag (t : str)        (* group store: anyOf(watching.tags) = "t" *)
 | QGSub (v : Z)               (* group store: not isEmpty(from watching where val < v) *)
-| QGList (s l : Z).           (* group store: empty filter with paging *)
+| QGList (s l : Z)            (* group store: empty filter with paging *)
+(* -- added for objects registered once on a store and used by every reader (seeded/C18-w2-2, w2-3):
+      external (func) symbols of both constructors, plain / behind an fk symbol / behind a link set
+      symbol, in filters and as sort keys; the remaining index and link read paths -- *)
+| QExtBool (b : bool)         (* odd = true|false                          NewBoolFuncSymbol *)
+| QExtBoolSort (v : Z)        (* val >= v sort by odd desc, name *)
+| QExtStr (l : str)           (* label = "l"                               NewStringFuncSymbol (null for some rows) *)
+| QExtStrSort (v : Z)         (* val < v sort by label, name desc          (null sorts first) *)
+| QExtGroup                   (* group.gx = true                           external symbol behind an fk symbol *)
+| QExtWatch                   (* anyOf(watchers.gx) = true                 external symbol behind a link set symbol *)
+| QGExtBool (b : bool)        (* group store: gx = true|false *)
+| QTagCursor (t : str) (fwd : bool)   (* set index OpenValueCursor, forward / backward *)
+| QTagKeys (fwd : bool)       (* set index OpenKeyCursor / ReadKeys: the tags some item carries *)
+| QLinked (i g : str)         (* link collection IsLinked (both sides agree): [g] or [] *)
+| QGroupByName (n : str).     (* group store: unique index read *)
 
 Inductive answer :=
 | AIds (l : list str)
@@ -133,8 +147,62 @@ Definition items_of_group (s : wstate) (g : str) : list item := filter (fun x =>
 Definition find_item (s : wstate) (i : str) : option item := find (fun x => str_eqb (i_id x) i) (w_items s).
 Definition has_tag (t : str) (x : item) : bool := existsb (str_eqb t) (i_tags x).
 
+(* the external functions the harness registers (c18_s2.go): pure functions of the row id *)
+Definition last_byte (s : str) : option byte := match rev s with [] => None | b :: _ => Some b end.
+Definition ext_odd (id : str) : bool := match last_byte id with Some b => N.odd b | None => false end.
+Definition ext_label (id : str) : option str :=
+  match last_byte id with
+  | None => None
+  | Some b => let d := (b mod 5)%N in if (d =? 4)%N then None else Some [99%N; (48 + d mod 3)%N]
+  end.
+
+(* descending by the bool symbol (true first), ties by ascending name *)
+Definition odd_desc_name_leb (a b : item) : bool :=
+  match ext_odd (i_id a), ext_odd (i_id b) with
+  | true, false => true
+  | false, true => false
+  | _, _ => str_leb (i_name a) (i_name b)
+  end.
+
+(* ascending by the string symbol, null before every string; ties by descending name *)
+Definition label_name_desc_leb (a b : item) : bool :=
+  match ext_label (i_id a), ext_label (i_id b) with
+  | None, Some _ => true
+  | Some _, None => false
+  | None, None => str_leb (i_name b) (i_name a)
+  | Some x, Some y => match str_cmp x y with
+                      | Lt => true
+                      | Gt => false
+                      | Eq => str_leb (i_name b) (i_name a)
+                      end
+  end.
+
+Fixpoint insert_uniq (x : str) (l : list str) : list str :=
+  match l with
+  | [] => [x]
+  | y :: r => match str_cmp x y with
+              | Lt => x :: y :: r
+              | Eq => y :: r
+              | Gt => y :: insert_uniq x r
+              end
+  end.
+
+(* the keys of the set index: a key exists exactly while some item carries the tag *)
+Definition tag_keys (s : wstate) : list str := fold_right insert_uniq [] (flat_map i_tags (w_items s)).
+
 Definition eval_query (q : query) (s : wstate) : answer :=
   match q with
+  | QExtBool b => AIds (map i_id (filter (fun x => Bool.eqb (ext_odd (i_id x)) b) (w_items s)))
+  | QExtBoolSort v => AIds (map i_id (sort_by odd_desc_name_leb (filter (fun x => v <=? i_val x) (w_items s))))
+  | QExtStr l => AIds (map i_id (filter (fun x => opt_str_eqb (ext_label (i_id x)) l) (w_items s)))
+  | QExtStrSort v => AIds (map i_id (sort_by label_name_desc_leb (filter (fun x => i_val x <? v) (w_items s))))
+  | QExtGroup => AIds (map i_id (filter (fun x => match i_group x with Some g => ext_odd g | None => false end) (w_items s)))
+  | QExtWatch => AIds (map i_id (filter (fun x => existsb ext_odd (groups_of s (i_id x))) (w_items s)))
+  | QGExtBool b => AIds (filter (fun g => Bool.eqb (ext_odd g) b) group_ids)
+  | QTagCursor t fwd => let l := map i_id (filter (has_tag t) (w_items s)) in AIds (if fwd then l else rev l)
+  | QTagKeys fwd => AIds (if fwd then tag_keys s else rev (tag_keys s))
+  | QLinked i g => AIds (if linked s i g then [g] else [])
+  | QGroupByName n => AIds (filter (fun g => str_eqb (71%N :: g) n) group_ids)
   | QList sk li => AIds (page sk li (map i_id (w_items s)))
   | QAll => AIds (map i_id (w_items s))
   | QF4 g => AIds (map i_id (items_of_group s g))
@@ -176,3 +244,11 @@ Definition serial_answer (ws : list wtx) (v : nat) (q : query) : option answer :
   | Some st => Some (eval_query q st)
   | None => None
   end.
+
+(* The harness keeps the same stores at several places of one database (base paths of depth 0 to 3:
+   the depth decides which of the path slices kept by indexes, symbols and stores have spare
+   capacity); the writer applies every operation to each family inside the same transaction and a
+   reader addresses one family per query.  The serial answer is that of the query: it does not
+   depend on the place (Db/WorkloadProofs.v). *)
+Definition placed := (nat * query)%type.
+Definition eval_placed (p : placed) (s : wstate) : answer := eval_query (snd p) s.
